@@ -512,8 +512,11 @@ static int m_send(const void *sk, const void *pdu, const size_t len, const time_
 	} else if (f != F_NONE) {
 		note_fault(s, TC_SEND, f);
 		s->wire.last_send_failed = true;
-		if (s->wire.len > 0) /* a PDU was cut short by the transport: what follows cannot be framed */
+		if (s->wire.len > 0) { /* a PDU was cut short by the transport: what follows cannot be framed */
 			s->wire.broken = true;
+			s->wire.cut = true;
+			CNT("c14/pdus_cut_short_by_a_failed_write");
+		}
 		rv = f;
 	} else {
 		size_t n = chunk(s, s->cfg.chunk_tx, len, len);
